@@ -184,42 +184,6 @@ Example pin_tok_in_date_from_unicode_iso : tok_in_date_from_unicode_iso =
      (t "raise:ValidationError")].
 Proof. vm_compute. reflexivity. Qed.
 
-Example pin_tok_in_datetime_from_unicode_iso : tok_in_datetime_from_unicode_iso =
-    [(t "call:.get_cls_attrs");
-     (t "call:.match");
-     (t "call:_parse_datetime_iso_match");
-     (t "op:IsNot");
-     (t "call:.astimezone");
-     (t "return");
-     (t "op:Is");
-     (t "call:.match");
-     (t "call:int");
-     (t "call:.group");
-     (t "s:tz_hr");
-     (t "s:tz_min");
-     (t "call:.startswith");
-     (t "call:.group");
-     (t "s:tz_hr");
-     (t "s:-");
-     (t "op:USub");
-     (t "call:FixedOffset");
-     (t "op:*");
-     (t "n:60");
-     (t "op:+");
-     (t "except:ValueError");
-     (t "raise:ValidationError");
-     (t "call:_parse_datetime_iso_match");
-     (t "op:IsNot");
-     (t "call:.astimezone");
-     (t "return");
-     (t "op:Is");
-     (t "call:.match");
-     (t "call:_parse_datetime_iso_match");
-     (t "call:.replace");
-     (t "return");
-     (t "raise:ValidationError")].
-Proof. vm_compute. reflexivity. Qed.
-
 Example pin_tok_in_decimal_from_unicode : tok_in_decimal_from_unicode =
     [(t "call:.get_cls_attrs");
      (t "op:And");
@@ -450,81 +414,6 @@ Example pin_tok_out_double_to_unicode : tok_out_double_to_unicode =
      (t "s:-INF");
      (t "return");
      (t "call:repr")].
-Proof. vm_compute. reflexivity. Qed.
-
-Example pin_tok_out_duration_to_unicode : tok_out_duration_to_unicode =
-    [(t "op:Lt");
-     (t "n:0");
-     (t "op:USub");
-     (t "b:True");
-     (t "b:False");
-     (t "call:int");
-     (t "call:.total_seconds");
-     (t "op:%");
-     (t "n:60");
-     (t "op://");
-     (t "n:60");
-     (t "op://");
-     (t "n:60");
-     (t "n:60");
-     (t "call:float");
-     (t "call:deque");
-     (t "call:.append");
-     (t "s:-P");
-     (t "call:.append");
-     (t "s:P");
-     (t "op:NotEq");
-     (t "n:0");
-     (t "call:.append");
-     (t "s:%iD");
-     (t "op:%");
-     (t "op:And");
-     (t "op:NotEq");
-     (t "n:0");
-     (t "op:%");
-     (t "n:86400");
-     (t "op:Eq");
-     (t "n:0");
-     (t "op:Eq");
-     (t "n:0");
-     (t "return");
-     (t "call:.join");
-     (t "s:");
-     (t "call:.append");
-     (t "s:T");
-     (t "op:Gt");
-     (t "n:0");
-     (t "call:.append");
-     (t "s:%iH");
-     (t "op:%");
-     (t "op:Gt");
-     (t "n:0");
-     (t "call:.append");
-     (t "s:%iM");
-     (t "op:%");
-     (t "op:Or");
-     (t "op:Gt");
-     (t "n:0");
-     (t "op:Gt");
-     (t "n:0");
-     (t "call:.append");
-     (t "s:%i");
-     (t "op:%");
-     (t "op:Gt");
-     (t "n:0");
-     (t "call:.append");
-     (t "s:.%06d");
-     (t "op:%");
-     (t "call:.append");
-     (t "s:S");
-     (t "call:len");
-     (t "op:Eq");
-     (t "n:2");
-     (t "call:.append");
-     (t "s:0S");
-     (t "return");
-     (t "call:.join");
-     (t "s:")].
 Proof. vm_compute. reflexivity. Qed.
 
 Example pin_tok_out_integer_to_unicode : tok_out_integer_to_unicode =
